@@ -4,7 +4,7 @@ import numpy as np
 from props.common import load_impl, exc_name
 
 RULE = ("random small datasets (3-8 rows, 2 real features, 2-3 classes, 2-4 validation points) x methods (neighbor with the default distance, bruteforce, montecarlo "
-        "with a fixed seed) rendered as: ndarray / DataFrame (default, string and shuffled-integer index) features; ndarray / Series labels; integer / float / string "
+        "with a fixed seed) rendered as: ndarray / DataFrame (default, string and shuffled-integer index) features; ndarray / Series labels; integer (contiguous, gapped-from-0, negative) / float / string "
         "labels (order-preserving renaming); dense features vs a FunctionTransformer->csr_matrix pipeline; a stateless feature-extraction pipeline (FunctionTransformer) "
         "vs pre-transformed features. Every rendering a method accepts must give the same score vector (1e-9) as the plain ndarray/int rendering; a documented "
         "rejection (AssertionError/ValueError/TypeError raised before any score is produced) is recorded as 'not accepted', not a violation. Non-trivial = base score "
@@ -52,6 +52,8 @@ def run(ctx):
             continue
         str_map = {k: "c%d" % k for k in range(c)}
         flt_map = {k: k * 0.5 + 0.25 for k in range(c)}
+        gap_map = {k: [0, 2, 5, 9][k] for k in range(c)}           # integer labels that start at 0 but are not contiguous
+        neg_map = {k: [-7, -1, 4, 30][k] for k in range(c)}
         perm_idx = list(range(100, 100 + n))
         rng.shuffle(perm_idx)
         renderings = {
@@ -59,6 +61,8 @@ def run(ctx):
             "dataframe_str_index": lambda: (pd.DataFrame(X, columns=["a", "b"], index=["r%d" % i for i in range(n)]), y, pd.DataFrame(Xv, columns=["a", "b"], index=["v%d" % i for i in range(m)]), yv, None),
             "series_labels": lambda: (X, pd.Series(y), Xv, pd.Series(yv), None),
             "dataframe_series_shuffled_index": lambda: (pd.DataFrame(X, columns=["a", "b"], index=perm_idx), pd.Series(y, index=perm_idx), pd.DataFrame(Xv, columns=["a", "b"]), pd.Series(yv), None),
+            "gapped_int_labels": lambda: (X, np.array([gap_map[k] for k in y]), Xv, np.array([gap_map[k] for k in yv]), None),
+            "negative_int_labels": lambda: (X, np.array([neg_map[k] for k in y]), Xv, np.array([neg_map[k] for k in yv]), None),
             "float_labels": lambda: (X, np.array([flt_map[k] for k in y]), Xv, np.array([flt_map[k] for k in yv]), None),
             "string_labels": lambda: (X, np.array([str_map[k] for k in y]), Xv, np.array([str_map[k] for k in yv]), None),
             "sparse_pipeline": lambda: (X, y, Xv, yv, Pipeline([("sp", FunctionTransformer(csr_matrix))])),
